@@ -7,6 +7,7 @@ import LianVerif.Model.Termination
 import LianVerif.Model.TerminationFrames
 import LianVerif.Model.TerminationTaint
 import LianVerif.Model.TerminationClosure
+import LianVerif.Model.TerminationPrelim
 import LianVerif.Spec.TerminationBounds
 
 namespace LianVerif.Drv.Termination
@@ -175,6 +176,33 @@ def handleFrames (j : Json) : Except String Json := do
     ("intr_bound", jNat (intrBound B U.length)),
     ("driver_bound", jNat (driverBound B U.length))])
 
+/-! bottom-up driver (analyze_method) -/
+
+def jPEv : PEv → Json
+  | .initFail m => Json.arr #[Json.str "initFail", jInt m]
+  | .init m => Json.arr #[Json.str "init", jInt m]
+  | .push m => Json.arr #[Json.str "push", jInt m]
+  | .intr m s ks => Json.arr #[Json.str "intr", jInt m, jInt s, jList jInt ks]
+  | .done m => Json.arr #[Json.str "done", jInt m]
+
+/-- request: {"M": [...], "root": m, "analyzed": [...], "nobody": [...], "script": [[[stmt,[callees]],…],…]} -/
+def handlePrelim (j : Json) : Except String Json := do
+  let M ← listOf getInt (← field j "M")
+  let root ← getInt (← field j "root")
+  let analyzed ← listOf getInt (fieldD j "analyzed" (Json.arr #[]))
+  let nobody ← listOf getInt (fieldD j "nobody" (Json.arr #[]))
+  let script ← listOf (listOf getReq) (← field j "script")
+  let (evs, fin) := prelimDriver M
+    (fun _ st _ => match st with | f :: _ => !nobody.contains f.method | [] => true)
+    (fun _ _ t => script.getD t [])
+    [{ method := root, inited := false }] analyzed 0
+  pure (Json.mkObj [
+    ("events", jList jPEv evs),
+    ("interruptions", jNat (pInterruptions evs)),
+    ("frames", jNat (pFrames evs)),
+    ("bound", jNat M.length),
+    ("analyzed", jList jInt fin)])
+
 /-! taint -/
 
 def getAct (j : Json) : Except String Act := do
@@ -231,9 +259,11 @@ def handleClosure (j : Json) : Except String Json := do
   let next := assocFn nextL []
   let w0 := match disc with
     | "bag" => init
+    | "lifo" => init
     | _ => init.foldl fifoDiscipline.push []
   let out := match disc with
     | "bag" => closureLoop bagDiscipline next N w0 []
+    | "lifo" => closureLoop lifoDiscipline next N w0 []
     | _ => closureLoop fifoDiscipline next N w0 []
   pure (Json.mkObj [
     ("pops", jList jInt out.pops),
@@ -269,6 +299,7 @@ def handle (j : Json) : Except String Json := do
   | "visit" => handleVisit j
   | "wlprobe" => handleWlProbe j
   | "frames" => handleFrames j
+  | "prelim" => handlePrelim j
   | "taint" => handleTaint j
   | "closure" => handleClosure j
   | "scopes" => handleScopes j
